@@ -246,9 +246,11 @@ def run_wsgi(
     environ: Dict[str, Any],
     close_after: Optional[int] = None,
     translate_http_exception: bool = True,
+    stall_after: Optional[Dict[int, float]] = None,
 ) -> WsgiRun:
     """Call the application the way a PEP 3333 server does.  close_after=k: the server stops
-    iterating after k items and calls close() (client went away)."""
+    iterating after k items and calls close() (client went away).  stall_after={k: seconds}: the
+    server (a slow client behind it) waits that long after having taken the k-th item."""
     run = WsgiRun()
     run.environ = environ
     first_bytes_seen = False
@@ -289,6 +291,10 @@ def run_wsgi(
             except StopIteration:
                 break
             run.items += 1
+            if stall_after and run.items in stall_after:
+                import time as _time
+
+                _time.sleep(stall_after[run.items])
             if type(item) is not bytes:
                 run.err("item-type", f"yielded {type(item).__name__}, not bytes")
                 item = bytes(item) if isinstance(item, (bytearray, memoryview)) else b""
